@@ -5,7 +5,7 @@ use std::time::{Duration, Instant};
 use serde_json::json;
 
 use crate::crashx::*;
-use crate::props_seq::{cfgs, k3, k4, workers};
+use crate::props_seq::{cfgs, k3, k4, k5, workers};
 use crate::report::{Finding, Report};
 use crate::world::*;
 
@@ -76,6 +76,18 @@ pub fn shrink_history() -> Vec<History> {
         ops: vec![
             Put(0, 0), Put(1, 0), Put(2, 0), Del(0), Put(1, 0), Batch(vec![(0, true), (2, true)]), Del(2), Put(2, 0), Reopen(1), Put(0, 0), Del(1), Reopen(2),
             Put(1, 0), Reopen(3), Batch(vec![(0, false), (1, true)]), Reopen(0), Put(2, 0),
+        ],
+    });
+    // the extreme byte-string keys ("", 00, a, a ff, ff) and empty values: lone deletes and puts of
+    // them are the smallest records a WAL can hold; they are replayed by reopens with and without
+    // log reuse, before and after a flush
+    v.push(History {
+        name: "cover-bytes/D->T300n".to_string(),
+        cfgs: cfgs(&["D", "T300n"]),
+        keys: k5(),
+        ops: vec![
+            Put(0, 0), Put(1, 0), Put(4, 0), Del(0), Reopen(0), Put(0, 4), Del(1), Put(2, 0), Del(4), Reopen(1), Del(0), Put(3, 0), Del(2), Reopen(0),
+            Put(0, 0), Flush, Del(0), Del(3), Reopen(1), Put(4, 4), Batch(vec![(0, true), (4, false)]), Reopen(0), Del(0),
         ],
     });
     // levels 1..=5 limited to 250 bytes: every flush sets off a cascade of size-triggered
